@@ -25,7 +25,7 @@ Model: `Poulpy/Model/Core/Ks.lean` (what `pdriver ks` executes).  Two layers, as
   for `dsize = 1` this is the whole product (`keyswitch_phase_dsize1`, end to end from the ciphertext:
   `keyswitch_internal_phase_dsize1`); for `dsize > 1` the loop over the `dsize` passes is characterised limb by limb
   (`product_accum_dsize_gt1`, phase level `keyswitch_phase_dsize_gt1`), each pass is an instance
-  (`product_pass_phase_partial`) on the regrouped input (`product_pass_selection_partial`); only the notational
+  (`product_pass_phase`) on the regrouped input (`product_pass_selection`); only the notational
   identification of these list sums with the `Finset` sums of `Gadget.acc` is left (see the FULL STATEMENT block).
 * `product_determined`: the product does not depend on the previous content of its result buffer (the
   defect found by the correspondence — fused automorphism forms read an un-zeroed scratch buffer for
@@ -384,10 +384,10 @@ example (l : Nat) :
     (by decide) rfl rfl rfl (entry_length AccumExample.exKey3.mat 1 rfl (by decide))
 
 
-/-- **`product_pass_phase_partial`**: pass `di > 0` of the `dsize > 1` branch writes into `res_dft_tmp`
+/-- **`product_pass_phase`**: pass `di > 0` of the `dsize > 1` branch writes into `res_dft_tmp`
 the vector-matrix product with `limb_offset = di`; its phase at limb `l` is
 `Σ_j ai_j ⋆ phase(key row j, limb l + di)` — the `di`-th term of the gadget identity. -/
-theorem product_pass_phase_partial (sk : List Poly) (a : Buf) (key : Key) (st : ProdSt) (di l : Nat) (hdi : di ≠ 0)
+theorem product_pass_phase (sk : List Poly) (a : Buf) (key : Key) (st : ProdSt) (di l : Nat) (hdi : di ≠ 0)
     (htmp : st.tmp.WF) (hsz : key.mat.size - (key.dsize - di - 2) ≤ st.tmp.maxSize)
     (hcols : st.tmp.cols = key.mat.colsOut) (hc : 0 < key.mat.colsOut)
     (hl : l < key.mat.size - (key.dsize - di - 2)) (hlo : l + di < key.mat.size)
@@ -425,10 +425,10 @@ theorem dft_select_limbIdx (n dsize di rs : Nat) (a : Col) (r : Nat) (hd : 0 < d
       omega
     rw [if_neg h4]
 
-/-- **`product_pass_selection_partial`**: in pass `di` the buffer `ai_dft` holds, in column `c` and limb
+/-- **`product_pass_selection`**: in pass `di` the buffer `ai_dft` holds, in column `c` and limb
 `r < min((a_size+di)/dsize, dnum)`, the input limb `Gadget.limbIdx dsize r di` of column `c` — the
 regrouping of the limbs into the digits of `gadget_identity`. -/
-theorem product_pass_selection_partial (a : Buf) (key : Key) (st : ProdSt) (di c r : Nat)
+theorem product_pass_selection (a : Buf) (key : Key) (st : ProdSt) (di c r : Nat)
     (hd : 0 < key.dsize) (hdi : di < key.dsize) (hai : st.ai.WF) (hcols : st.ai.cols = a.cols)
     (hsz : min ((a.size + di) / key.dsize) key.mat.rows ≤ st.ai.maxSize) (hc : c < a.cols)
     (hr : r < min ((a.size + di) / key.dsize) key.mat.rows) :
@@ -566,7 +566,7 @@ def exKey3 : Key := AccumExample.exKey3
 def exA3 : Buf := AccumExample.exA3
 def dirty3 : Buf := AccumExample.dirty3
 
-/-- non-vacuity of `product_pass_selection_partial`: pass `di = 2` of a `dsize = 3` product selects input limb 0 -/
+/-- non-vacuity of `product_pass_selection`: pass `di = 2` of a `dsize = 3` product selects input limb 0 -/
 example : limbOr0 1 ((productStep exA3 exKey3 { res := zeroBuf 1 1 4, ai := zeroBuf 1 1 1, tmp := zeroBuf 1 1 4 } 2).ai.act 0) 0 = [1] := by
   decide
 
